@@ -75,8 +75,12 @@ def gen_notnew(rng, base):
         from .c16 import put
         n['del'] = True
         base = copy.deepcopy(base)
+        where = tuple(p)
+        inner = [q for q, m in nodes if len(q) > len(p) and q[:len(p)] == tuple(p) and m['t'] == 'map']
+        if inner and rng.random() < 0.5:
+            where = tuple(rng.choice(inner))       # ... also when the protected entry sits further down: the removed paths are those of the whole merge
         try:
-            put(base[-1], tuple(p) + ('zz_prot',), S(255, prio=1))
+            put(base[-1], where + ('zz_prot',), S(255, prio=1))
         except Exception:
             pass
     if rng.random() < 0.3:
